@@ -336,8 +336,15 @@ def run_concurrent(params: dict, chooser) -> dict:
         before = len(rig.listener.events)
         world.deviations = True
         slots = []
-        for i, op in enumerate(ops):
-            slots.append(world.op(f't{i}', op, (lambda op=op: rig.op_coro(op)), record=True))
+        if params.get('early_bind'):
+            # the callers captured the state object (built the coroutine) before any of them ran, as
+            # TransferManager does when it collects state.queue() / state.abort() coroutines for a later gather()
+            pre = [rig.op_coro(op) for op in ops]
+            for i, op in enumerate(ops):
+                slots.append(world.op(f't{i}', op, (lambda i=i: pre[i]), record=True))
+        else:
+            for i, op in enumerate(ops):
+                slots.append(world.op(f't{i}', op, (lambda op=op: rig.op_coro(op)), record=True))
         if params.get('cancel_first'):
             # the caller of the first (slow) operation gives up: its task is cancelled at a point the explorer picks
             async def cancel_first():
@@ -420,6 +427,8 @@ def scenarios(tier: str):
             for arm in (False, True):
                 for ops in itertools.combinations_with_replacement(CONC_OPS, n):
                     out.append({'kind': 'conc', 'direction': direction, 'state': state, 'arm': arm, 'ops': list(ops)})
+                    out.append({'kind': 'conc', 'direction': direction, 'state': state, 'arm': arm, 'ops': list(ops),
+                                'early_bind': True})
                 if arm and state in ('QUEUED', 'INITIALIZING', 'TRANSFERRING', 'INCOMPLETE', 'PAUSED'):
                     for first in ('abort_req', 'pause'):
                         for second in ('fail_x', 'queue', 'complete', 'abort_req', 'pause'):
